@@ -160,8 +160,13 @@ def cdata_safe_names(evs, v11_possible=True):
     return [n for n in element_names(evs) if n not in bad]
 
 
+FX = [False]     # set by run(): True when /repo's writeCDATA is the repaired one (GenOutopt.cdata_sets_prevtext)
+
+
 def guard_ok(evs):
     """the guard of indent_adds_only_ws_partial (OutoptDefs.ind_guard), re-implemented"""
+    if FX[0]:
+        return True
     pt = lt = False
     for e in evs:
         k = e[0]
@@ -474,6 +479,9 @@ def run_t(ctx, cases, impl, model):
                     mb = S4.model_bytes(enc, units)
                 if mb is None or not ri.startswith("ok:") or bytes.fromhex(ri[3:]) != mb:
                     corr.append({"case": line, "impl": ri[:200], "model": "ok:" + (mb.hex()[:200] if mb is not None else "?")})
+            elif rm.startswith("err "):
+                if not ri.startswith("err:"):
+                    corr.append({"case": line, "impl": ri[:100], "model": rm})
             else:
                 corr.append({"case": line, "impl": ri[:100], "model": rm or "no result"})
         what = None
@@ -991,6 +999,99 @@ def run_z_methods(ctx, n, impl):
 
 # ---------------------------------------------------------------------------------------------
 
+# ---------------------------------------------------------------------------------------------
+# O stream: option selection. Model (process_outputs + select_coded, over the regenerated defaults and the
+# `indentAmount > -1` test) vs what whole transformations of a fixed probe tree show
+
+O_KEYS = {"method": "m", "version": "v", "indent": "i", "encoding": "e", "omit-xml-declaration": "o", "standalone": "s",
+          "doctype-system": "ds", "doctype-public": "dp", "cdata-section-elements": "c", "xalan:indent-amount": "ia",
+          "xalan:escape-urls": "eu", "xalan:omit-meta-tag": "om"}
+PROBE_BODY = "<r><a><b/></a><c>t</c></r>"
+
+
+def gen_o_cases(ctx, n):
+    r = ctx.rng
+    cases = []
+    for i in range(n):
+        def one():
+            pool = [("method", r.choice(["xml", "xml", "html", "text"])), ("indent", r.choice(["yes", "no"])), ("encoding", r.choice(ENCODINGS)),
+                    ("cdata-section-elements", r.choice(["c", "a c", "b", "c r"])), ("xalan:indent-amount", str(r.choice([0, 1, 2, 5]))),
+                    ("omit-xml-declaration", r.choice(["yes", "no"]))]
+            o = r.sample(pool, r.randrange(0, 5))
+            r.shuffle(o)
+            return o
+        outs = [one() for _ in range(r.choice([0, 1, 1, 2, 3]))]
+        impo = [one() for _ in range(r.choice([0, 0, 1, 2]))]
+        api = (r.choice(["-", "-", "-", "0", "1", "4"]), r.choice(["-", "-", "-"] + ENCODINGS))
+        cases.append((impo, outs, api))
+    # the boundary of the indent test: amount 0 and -1 from both sources, indent yes/no explicit
+    for ind in ("yes", "no", None):
+        for ia in (None, "0", "3"):
+            for api in ("-", "0", "2"):
+                o = ([("indent", ind)] if ind else []) + ([("xalan:indent-amount", ia)] if ia else [])
+                cases.append(([], [o] if o else [], (api, "-")))
+    return cases
+
+
+def run_o(ctx, cases, impl, model):
+    if not model:
+        return []
+    zl, ol, meta = [], [], {}
+    for i, (impo, outs, api) in enumerate(cases):
+        cid = "o%d" % i
+        imp = None
+        if impo:
+            imp = sheet_of(impo, "<never/>").replace('<xsl:template match="/">', '<xsl:template match="never">')
+        zl.append(z_line(cid, sheet_of(outs, PROBE_BODY, imp), (api[0], api[1], "-", "-"), {"imp.xsl": imp} if imp else None))
+        toks = []
+        for o in impo + outs:
+            toks.append("|")
+            toks += ["%s=%s" % (O_KEYS[k], v.replace(" ", ",")) for k, v in o]
+        ol.append("O %s %s %s %s" % (cid, api[0] if api[0] != "-" else "-1", api[1], " ".join(toks)))
+        meta[cid] = (zl[-1], ol[-1])
+    res = core.run_lines_parallel(impl, zl)[1]
+    mod = core.run_lines_parallel(model, ol)[1]
+    corr = []
+    for cid, (z, o) in meta.items():
+        ctx.cov["evaluations"] += 1
+        ctx.cov["traces_validated_against_impl"] += 1
+        ctx.count("o:selection")
+        rz, rm = res.get(cid, ""), mod.get(cid, "").split()
+        if not rz.startswith("ok:") or len(rm) != 5:
+            corr.append({"case": o, "impl": rz[:100], "model": " ".join(rm)})
+            continue
+        data = bytes.fromhex(rz[3:])
+        m_method, m_ind, m_amt, m_enc, m_cd = rm
+        enc = m_enc if m_enc != "-" else "UTF-8"
+        txt = data.decode("utf-16" if enc == "UTF-16" else PY_CODEC.get(enc, "utf-8"), "replace")
+        if "<b/>" in txt:
+            method = "xml"
+        elif "<b></b>" in txt:
+            method = "html"
+        else:
+            method = "text"
+        want = {"none": "xml"}.get(m_method, m_method)
+        obs = [method]
+        exp = [want]
+        if method == "xml" and want == "xml":
+            mm = re.search(r"<r[^>]*>(\n?)( *)<a>", txt)
+            obs += ["indent=%d" % (1 if mm and mm.group(1) else 0), "amount=%s" % (len(mm.group(2)) if mm and mm.group(1) else "-")]
+            exp += ["indent=%s" % m_ind, "amount=%s" % (m_amt if m_ind == "1" else "-")]
+            md = re.match(r'<\?xml version="[^"]*" encoding="([^"]*)"', txt)
+            if md:
+                obs.append("enc=" + md.group(1))
+                exp.append("enc=" + enc)
+            obs.append("cdata-c=%d" % (1 if "<![CDATA[t]]>" in txt else 0))
+            exp.append("cdata-c=%d" % (1 if "c" in m_cd.split(",") else 0))
+        elif method == "text" and want == "text":
+            if data != text_expected(enc, [("T", u16("t"))])[0]:
+                obs.append("bytes=" + data.hex()[:40])
+                exp.append("bytes=t in " + enc)
+        if obs != exp:
+            corr.append({"case": o + "   (transformation: " + z[:60] + "...)", "impl": " ".join(obs), "model": " ".join(exp)})
+    return corr
+
+
 def corpus_lines(ctx):
     out = []
     cdir = os.path.join(core.VERIF, "corpus", "C08")
@@ -1063,6 +1164,7 @@ def run(ctx):
         return ctx.finish(LEVEL)
     try:
         import gen_outopt
+        FX[0] = "OSetPrevText true" in gen_outopt.gen_outopt()[1]["ops_writeCDATA"]
         html_names = gen_outopt.html_names()
     except Exception as ex:
         html_names = []
@@ -1085,7 +1187,8 @@ def run(ctx):
         c3, o3 = run_h(ctx, n_h, impl, model, html_names)
         o4 = run_z(ctx, gen_z_cases(ctx, n_z), impl, known_keys)
         o5 = run_z_methods(ctx, max(10, n_z // 2), impl)
-        return c1 + c2 + c3, o1 + o2 + o3 + o4 + o5
+        c4 = run_o(ctx, gen_o_cases(ctx, max(60, n_z)), impl, model)
+        return c1 + c2 + c3 + c4, o1 + o2 + o3 + o4 + o5
 
     c, o = stage(n_trees, n_var, n_t, n_h, n_z)
     corr += c
